@@ -116,16 +116,18 @@ def fixed_programs(g):
                "fields": [{"name": "id", "ty": P("u8"), "attrs": {}}, {"name": "any", "ty": N("FxOneUnt"), "attrs": {"flatten": True}}]}]
     imap = {x["name"]: x for x in items}
     progs.append({"items": items, "probes": [{"ty": N(x["name"]), "values": g.all_variant_values(N(x["name"]), imap), "de": True} for x in items]})
-    # every inflection rule on identifiers that are not in the conventional case: leading underscores, capitals, digits, acronyms
+    # every inflection rule on identifiers that are not in the conventional case: leading underscores, capitals, digits, acronyms,
+    # non-ASCII cased letters after an ASCII first character (serde changes the case of ASCII letters only; serde_derive itself panics
+    # on camelCase when the FIRST character is not ASCII — it slices one byte — so such identifiers are not valid inputs)
     # (serde's rules are defined on the conventional spelling; ts-rs has to agree with what serde does on the others too)
     for rule in gen_corpus.RULES:
         items = [{"kind": "struct", "name": f"FxRaS{rule}", "shape": "named", "attrs": {"rename_all": rule}, "generics": [], "de": True,
-                  "fields": [{"name": fn, "ty": P("u8"), "attrs": {}} for fn in ("_id", "user_name", "_rev_tag", "URL_path", "User_id", "x2_y", "trailing_", "__dunder_x")]},
+                  "fields": [{"name": fn, "ty": P("u8"), "attrs": {}} for fn in ("_id", "user_name", "_rev_tag", "URL_path", "User_id", "x2_y", "trailing_", "__dunder_x", "x_Übung_é", "naïve_Ü")]},
                  {"kind": "enum", "name": f"FxRaE{rule}", "attrs": {"rename_all": rule}, "generics": [], "de": True,
-                  "variants": [{"name": vn, "shape": "unit", "attrs": {}, "fields": []} for vn in ("Http_Error", "tcp_v4", "HTTPServer", "Plain", "A1b", "X_")]
+                  "variants": [{"name": vn, "shape": "unit", "attrs": {}, "fields": []} for vn in ("Http_Error", "tcp_v4", "HTTPServer", "Plain", "A1b", "X_", "AÜber", "Xé_Üï")]
                               + [{"name": "With_Fields", "shape": "named", "attrs": {}, "fields": [{"name": "_inner_id", "ty": P("u8"), "attrs": {}}]}]},
                  {"kind": "enum", "name": f"FxRaF{rule}", "attrs": {"rename_all_fields": rule, "tag": "t"}, "generics": [], "de": True,
-                  "variants": [{"name": "V", "shape": "named", "attrs": {}, "fields": [{"name": fn, "ty": P("bool"), "attrs": {}} for fn in ("_id", "Url_Path", "plain_one")]}]}]
+                  "variants": [{"name": "V", "shape": "named", "attrs": {}, "fields": [{"name": fn, "ty": P("bool"), "attrs": {}} for fn in ("_id", "Url_Path", "plain_one", "o_Ünï_é")]}]}]
         imap = {x["name"]: x for x in items}
         progs.append({"items": items, "probes": [{"ty": N(x["name"]), "values": g.all_variant_values(N(x["name"]), imap), "de": True} for x in items]})
     return progs
